@@ -79,6 +79,7 @@ func (t *tally) prop(name, shape string, input any, detail string) {
 		t.c.Fail("property", name, shape, input, detail)
 	}
 }
+
 // finding records a property failure of a shape that is listed in known_findings.json as a recorded, unrepaired defect:
 // it is reported (KNOWN-FINDING, or VIOLATION should the entry disappear) without marking the obligation broken
 func (t *tally) finding(name, shape string, input any, detail string) {
@@ -107,9 +108,10 @@ func (t *tally) flush() {
 func q(s string) string { return fmt.Sprintf("%q", s) }
 
 func Run(c *core.Ctx) {
-	c.Rule = "strings: every code point 0..0x2FFF singly (surrogates and out-of-range as invalid bytes), code points paired before/after each of 26 metacharacters, invalid lead/continuation patterns, XSS vectors and mutations, random strings over an adversarial alphabet; values: random nested slices/maps/structs of those strings with numbers, bools, nil; names: every string over a 10-symbol alphabet up to the tier's length; generated probe templates rendered through the real generator. distinct non-trivial = distinct inputs containing a rune the escapers must act on (control, quote, $, \\, < > & / +, U+2028/9) or an invalid byte; for names, distinct accepted names"
+	c.Rule = "strings: every code point 0..0x2FFF singly (surrogates and out-of-range as invalid bytes), code points paired before/after each of 26 metacharacters, invalid lead/continuation patterns, XSS vectors and mutations, random strings over an adversarial alphabet; values: random nested slices/maps/structs of those strings with numbers, bools, nil; names: every string over a 10-symbol alphabet up to the tier's length; generated probe templates rendered through the real generator; script templates: every literal body of up to 3 (thorough 4) pieces over {x, escaped backslash, escaped quote, other quote, //, /*, \\n, backslash runs} for each quote kind followed by / holding a hole, plus a random grammar of statements, literals with escape sequences, comments and holes. distinct non-trivial = distinct inputs containing a rune the escapers must act on (control, quote, $, \\, < > & / +, U+2028/9) or an invalid byte; for names, distinct accepted names; for script templates, distinct templates whose text holds a backslash or a slash"
 	c.Trusted = append(c.Trusted,
 		"specification spec/JsLex.v (JavaScript string-literal lexer and string values, script-data end condition; compared with node's evaluator in the thorough tier)",
+		"specification spec/JsScript.v (lexer for a whole script element's text over templates with holes; its string mode is proved to make the decisions of JsLex.lex_go)",
 		"lib/Utf8.v tied to unicode/utf8 on every generated string",
 		"translator: the two replacement tables are dumped from the live code into gen/Tables03.v; their side-conditions are re-proved on every build",
 		"extraction: ExtrOcamlBasic only; ocaml/driver.ml (hex line protocol, byte<->int by constructor index, asserted at start-up)",
@@ -118,7 +120,8 @@ func Run(c *core.Ctx) {
 		"the page is decoded as UTF-8: an invalid byte of a Go string reaches the script as U+FFFD (as everywhere else in the document); the byte triple E2 80 A8/A9 is U+2028/9 wherever it occurs",
 		"inside '...' and \"...\" U+2028/9 are treated as line terminators (pre-ES2019 engines) - conservative",
 		"templ.JSExpression and JSUnsafeFuncCall are trusted by type, like templ.Raw",
-		"the static JavaScript around a {{ }} hole is the author's: the quote tracker of parser/v2/scriptparser.go is exercised through generated probes, not proved (regex literals and interpolations inside template literals are outside its reach)")
+		"the static JavaScript around a {{ }} hole is the author's: the quote tracker of parser/v2/scriptparser.go is modelled (model/JsTrack.v), tied to the parser on every generated script template and proved to agree with the specification's lexer on the fragment of C03_tracker_agrees_partial; regular-expression literals, ${ } interpolations inside template literals and Annex-B HTML-like comments are outside the reach of both",
+		"script family: a {{ directly after a backslash, and {{ inside a comment, are not Go expressions in templ and are not generated; values are strings (valid UTF-8 when two holes are adjacent inside one literal: the browser's decoder, not the byte triple, decides what a split E2 80 A8 is)")
 	c.Proofs()
 
 	t := newTally(c)
